@@ -328,6 +328,12 @@ def field_sweep(rnd):
         out.append({"op": "create_far", "seid": 5, "ies": [{"k": "farid", "v": 2}, {"k": "aa", "hex": hx([v & 255, v >> 8])}]})
     for c in out:
         c["want_wf"] = True
+    # outside wf (model correspondence only): two Source Interface IEs around an SDF filter - the LAST one decides the swap
+    sdf = {"k": "sdf", "flags": 1, "fd": b"permit out 6 from 10.0.0.1 1-2 to 10.0.0.2 3".hex(), "bid": 0, "ttc": "", "spi": "", "fl": ""}
+    for a in (0, 1):
+        for b in (0, 1, 2):
+            for p in itertools.permutations([{"k": "srcif", "v": a}, {"k": "srcif", "v": b}, sdf]):
+                out.append({"op": "create_pdr", "seid": 9, "ies": [{"k": "pdrid", "v": 3}, {"k": "pdi", "c": list(p)}], "want_wf": False})
     return out
 
 
